@@ -1370,5 +1370,41 @@ mod verif_inflate_core {
         stored_e2e_body(0x01, true, 1, 1, false, false);
     }
 
+    // ------------------------------------------------------------------
+    // K-inittree-reject : the verdict half of the real init_tree: an over-subscribed code-length set, and an
+    // incomplete one (except the RFC/zlib exemptions: no codes at all, or a single 1-bit code, for litlen/dist), is
+    // never accepted. The table-construction half runs only for accepted sets and stays unverified (DESIGN.md §10).
+    // Oracle: Kraft sum over the lengths, in units of 2^-15.
+    // ------------------------------------------------------------------
+    #[kani::proof]
+    #[kani::unwind(18)]
+    fn k_init_tree_rejects_invalid_sets() {
+        const N: usize = 6;
+        let mut r = DecompressorOxide::default();
+        let bt: u8 = kani::any();
+        kani::assume(bt <= 2);
+        r.block_type = bt;
+        r.table_sizes[bt as usize] = N as u16;
+        let lens: [u8; N] = kani::any();
+        let mut kraft: u32 = 0;
+        let mut maxlen: u8 = 0;
+        let mut i = 0;
+        while i < N {
+            kani::assume(lens[i] <= 15);
+            if lens[i] > 0 { kraft += 1u32 << (15 - lens[i]); if lens[i] > maxlen { maxlen = lens[i]; } }
+            match bt { 0 => r.code_size_literal[i] = lens[i], 1 => r.code_size_dist[i] = lens[i], _ => r.code_size_huffman[i] = lens[i] }
+            i += 1;
+        }
+        let over = kraft > 1 << 15;
+        let incomplete = kraft < 1 << 15;
+        let exempt = bt != 2 && maxlen <= 1;
+        kani::assume(over || (incomplete && !exempt));
+        let mut l = LocalVars { bit_buf: 0, num_bits: 0, dist: 0, counter: 0, num_extra: 0 };
+        let a = init_tree(&mut r, &mut l);
+        assert!(matches!(a, Some(Action::Jump(BadTotalSymbols))), "OBL:inittree.over_subscribed_or_incomplete_code_sets_are_rejected [C04]");
+        kani::cover!(over, "COV:inittree.over_subscribed");
+        kani::cover!(incomplete && !exempt, "COV:inittree.incomplete");
+    }
+
     //@PLAYBACK@
 }
